@@ -55,7 +55,7 @@ def cases(draw, real=False):
         auth["bad_challenge_at"] = draw(st.integers(0, maxnk - 1))
         auth["bad_arg0"] = draw(st.sampled_from([0, 2, 3, 7, 2 ** 32 - 1]))
     dev = {"auth": auth, "maxdata": draw(sc.maxdata() | st.sampled_from([0, 1, 2, 4095])), "strays": draw(st.lists(st.integers(0, 3), max_size=4)),
-           "token_seed": draw(st.binary(min_size=1, max_size=4))}
+           "token_seed": draw(st.binary(min_size=1, max_size=4)), "version": draw(st.sampled_from([0x01000000, 0x01000001, 0, 0xFFFFFFFF]))}
     banner = draw(st.sampled_from([None, "host1", b"bytes-banner", "ü"]))
     return {"api": draw(st.sampled_from(["sync", "async"])), "device": dev, "dev_tape": draw(sc.dev_tape(8)),
             "transport": {"flavour": draw(sc.flavour())}, "device_kwargs": {"banner": banner, "default_transport_timeout_s": draw(st.sampled_from([None, 5.0]))},
